@@ -19,10 +19,21 @@ func init() { Checks["C20"] = CheckC20 }
 //
 // D(input) = deepest nesting level at which a string containing a backslash occurs.
 const (
-	c20K  = 1024
-	c20Kd = 2
-	c20C  = 8 << 10
+	c20K    = 1024 // bytes per input byte for the generic decoders
+	c20KBuf = 64   // bytes per input byte for Valid / SkipValue / SkipValueFast / Handle*Values (they only own a stack)
+	c20Kd   = 2
+	c20C    = 8 << 10
 )
+
+// c20KFor: the functions that only grow a Buffer's stack get a much tighter per-byte
+// constant than the generic decoders (measured maximum 20.5 B/B at depth 100 000).
+func c20KFor(kind string) int {
+	switch kind {
+	case "Valid", "SkipValue", "SkipValueFast", "HandleArrayValues", "HandleObjectValues":
+		return c20KBuf
+	}
+	return c20K
+}
 
 // C20 step encoding: Kind = function; the document is In when non-empty, otherwise built
 // from the shape spec Strs[0] with parameters Ints[2:]; Ints[0] = repeat count (the same
@@ -348,7 +359,7 @@ func (r *c20Runner) step(step *core.Case) error {
 	}
 	r.h.buf = &r.buf
 	r.h.reentrant = len(step.Ints) > 1 && step.Ints[1] == 1
-	perCall := uint64(len(doc))*uint64(c20K+c20Kd*escapeDepth(doc)) + c20C
+	perCall := uint64(len(doc))*uint64(c20KFor(step.Kind)+c20Kd*escapeDepth(doc)) + c20C
 	for i := 0; i < repeat; i++ {
 		before := totalAlloc()
 		perr := core.Catch(func() error { r.call(step.Kind, doc); return nil })
@@ -378,8 +389,8 @@ func (r *c20Runner) step(step *core.Case) error {
 			r.maxUse = use
 		}
 		if r.alloc > r.bound {
-			return fmt.Errorf("after %d calls on %d input bytes in total the calls have allocated %d bytes; the linear bound %d*len + %d*len*D + %d per call is %d bytes (this call: %s on a %d-byte document allocated %d bytes, repetition %d)",
-				r.calls, r.inLen, r.alloc, c20K, c20Kd, c20C, r.bound, step.Kind, len(doc), after-before, i)
+			return fmt.Errorf("after %d calls on %d input bytes in total the calls have allocated %d bytes; the linear bound (%d|%d)*len + %d*len*D + %d per call is %d bytes (this call: %s on a %d-byte document allocated %d bytes, repetition %d)",
+				r.calls, r.inLen, r.alloc, c20K, c20KBuf, c20Kd, c20C, r.bound, step.Kind, len(doc), after-before, i)
 		}
 	}
 	return nil
